@@ -89,6 +89,9 @@ func VerifC18NewAdm(banDuration time.Duration) *VerifC18Adm {
 		quit:        make(chan struct{}),
 	}
 	a.s.addrManager = addrmgr.New(func(string) ([]net.IP, error) { return nil, fmt.Errorf("no lookup") }, &a.log)
+	// the server's network-adjusted time source, as newServer sets it (config.TimeSource is built the
+	// same way); serverPeer.OnVersion feeds it the version timestamp of every peer
+	a.s.timeSource = config.NewMedianTime(&a.log)
 	a.state = &peerState{
 		inboundPeers:    make(map[int32]*serverPeer),
 		persistentPeers: make(map[int32]*serverPeer),
@@ -98,6 +101,16 @@ func VerifC18NewAdm(banDuration time.Duration) *VerifC18Adm {
 		connectionCount: make(map[string]int),
 	}
 	return a
+}
+
+// SeenSkewedPeers records that k distinct peers whose version timestamps were off by skew have been
+// seen: exactly what serverPeer.OnVersion does with each peer's msg.Timestamp.  Returns the offset the
+// time source reports afterwards (0 with fewer than five or an even number of samples).
+func (a *VerifC18Adm) SeenSkewedPeers(k int, skew time.Duration) time.Duration {
+	for i := 0; i < k; i++ {
+		a.s.timeSource.AddTimeSample(fmt.Sprintf("198.51.%d.%d:8333", 100+i/200, 1+i%200), time.Now().Add(skew))
+	}
+	return a.s.timeSource.Offset()
 }
 
 // NewPeer creates a real serverPeer of the given kind ('i' inbound, 'o' outbound, 'p' persistent
